@@ -118,9 +118,51 @@ Definition sequential_unroll (C : Circuit) (n : nat) (d q : string) (ign : list 
    or the initial state st at step 0; every other input carries ins t *)
 Definition state_src (sio : list (string * string)) (v : string) : option string :=
   (λ p, p.2.1) <$> list_find (λ kv, kv.2 = v) sio.
+Definition step_in (sio : list (string * string)) (prev : option val) (st insT : val) : val :=
+  λ i, match state_src sio i with
+       | Some k => match prev with Some p => p k | None => st i end
+       | None => insT i end.
 Fixpoint run (c : circuit) (sio : list (string * string)) (t : nat) (st : val) (ins : nat → val) : val :=
   match t with
-  | O => evalc c (λ i, match state_src sio i with Some _ => st i | None => ins 0 i end)
-  | S t' => let prev := run c sio t' st ins in
-            evalc c (λ i, match state_src sio i with Some k => prev k | None => ins t i end)
+  | O => evalc c (step_in sio None st (ins 0))
+  | S t' => evalc c (step_in sio (Some (run c sio t' st ins)) st (ins t))
   end.
+(* the same machine, relationally: x is the valuation of c at step t *)
+Fixpoint is_run (c : circuit) (sio : list (string * string)) (st : val) (ins : nat → val) (t : nat) (x : val) : Prop :=
+  consistent c x ∧
+  match t with
+  | O => agrees (inputs c) x (step_in sio None st (ins 0))
+  | S j => ∃ x', is_run c sio st ins j x' ∧ agrees (inputs c) x (step_in sio (Some x') st (ins t))
+  end.
+
+(* ---- closed form of the result of unroll (specification side) ---- *)
+Definition io_node (c : circuit) (sio : list (string * string)) (prefix : string) (t : nat) (io : string) : ninfo :=
+  let out := is_output c io in
+  if bool_decide (io ∈ inputs c) then
+    match state_src sio io, t with
+    | Some k, S j => mk_node Buf out {[io_name k prefix j]}
+    | _, _ => mk_node Input out ∅
+    end
+  else mk_node Buf out {[pre (inst_name t) io]}.
+Definition ucopy_info (prefix : string) (t : nat) (m : string) (i : ninfo) : ninfo :=
+  if bool_decide (n_ty i = Input) then mk_node Buf false {[io_name m prefix t]}
+  else mk_node (n_ty i) false (set_map (pre (inst_name t)) (n_fi i)).
+Definition unroll_nodes (c : circuit) (n : nat) (sio : list (string * string)) (prefix : string) : list (string * ninfo) :=
+  t ← seq 0 n; (((λ io, (io_name io prefix t, io_node c sio prefix t io)) <$> elements (io_of c)) ++
+                ((λ p, (pre (inst_name t) p.1, ucopy_info prefix t p.1 p.2)) <$> map_to_list c))%list.
+Definition unroll_closed (c : circuit) (n : nat) (sio : list (string * string)) (prefix : string) : circuit :=
+  list_to_map (unroll_nodes c n sio prefix).
+Definition unroll_iomap (c : circuit) (n : nat) (prefix : string) : iomap :=
+  list_to_map ((λ io, (io, (λ t, io_name io prefix t) <$> seq 0 n)) <$> elements (io_of c)).
+(* guards: generated names are pairwise distinct and new; state outputs are io, state inputs are distinct inputs *)
+Definition unroll_names_ok (c : circuit) (n : nat) (sio : list (string * string)) (prefix : string) : Prop :=
+  NoDup (unroll_nodes c n sio prefix).*1 ∧ ∀ x, x ∈ (unroll_nodes c n sio prefix).*1 → x ∉ dom c.
+Definition unroll_names_okb (c : circuit) (n : nat) (sio : list (string * string)) (prefix : string) : bool :=
+  bool_decide (NoDup (unroll_nodes c n sio prefix).*1) &&
+  forallb (λ x, negb (bool_decide (x ∈ dom c))) (unroll_nodes c n sio prefix).*1.
+Definition sio_ok (c : circuit) (sio : list (string * string)) : Prop :=
+  Forall (λ kv, kv.1 ∈ outputs c ∧ kv.2 ∈ inputs c) sio ∧ NoDup sio.*1 ∧ NoDup sio.*2.
+Definition sio_okb (c : circuit) (sio : list (string * string)) : bool :=
+  forallb (λ kv, bool_decide (kv.1 ∈ outputs c) && bool_decide (kv.2 ∈ inputs c)) sio &&
+  bool_decide (NoDup sio.*1) && bool_decide (NoDup sio.*2).
+Definition free_are_inputs (c : circuit) : Prop := free_nodes c = inputs c.
